@@ -1,6 +1,7 @@
 /- Model/C02Gen.lean — the shared identity-machine model (Model/C01.lean) instantiated with the facts
    the translator extracted for the C02 check (Generated/C02.lean). -/
 import PsutilModel.Model.C01
+import PsutilModel.Model.C02Fault
 import PsutilModel.Generated.C02
 namespace Psutil.C02
 open Psutil.C01
@@ -29,5 +30,42 @@ def cfg : Cfg :=
     sigKill := (Gen.C02.signalMap.lookup "kill").getD 0
     ioNoValue := Gen.C02.ioNoValue
     affinityAll := Gen.C02.affinityResetMask }
+
+/-! ### the path of a transient OSError from the read of `/proc/pid/stat` to the caller (seeded round 5) -/
+
+/-- `_parse_stat_file` reads the file with a bare `bcat(path)`: no `fallback=`, no `try`, no detour -/
+def statReadBare : Bool :=
+  Gen.C02.statReadShape
+    == ["def(self) @wrap_exceptions @memoize_when_activated", "data = bcat(f'{self._procfs_path}/{self.pid}/stat')"]
+
+/-- `cat()` without `fallback` lets the error of `open()` / `read()` out; `bcat` hands `fallback` through -/
+def catBare : Bool :=
+  Gen.C02.catShape
+    == ["def(fname, fallback=_DEFAULT, _open=open_text)",
+        "if fallback is _DEFAULT: with _open(fname) as f: return f.read() else: try: with _open(fname) as f: return f.read() except OSError: return fallback",
+        "def(fname, fallback=_DEFAULT)", "return cat(fname, fallback=fallback, _open=open_binary)"]
+
+/-- `wrap_exceptions` translates PermissionError, ProcessLookupError and FileNotFoundError — nothing wider -/
+def wrapNarrow : Bool :=
+  Gen.C02.wrapHandlers
+    == ["PermissionError: raise AccessDenied(pid, name) from err",
+        "ProcessLookupError: self._raise_if_zombie(); raise NoSuchProcess(pid, name) from err",
+        "FileNotFoundError: self._raise_if_zombie(); if not os.path.exists(f'{self._procfs_path}/{pid}/stat'): raise NoSuchProcess(pid, name) from err; raise"]
+
+/-- `is_running()` sets `_gone` for NoSuchProcess only (ZombieProcess: True) -/
+def isRunningNarrow : Bool :=
+  Gen.C02.isRunningHandlers == ["ZombieProcess: return True", "NoSuchProcess: self._gone = True; return False"]
+
+/-- `_init` goes on for AccessDenied / ZombieProcess, re-raises (or, for Popen, flags) NoSuchProcess — nothing wider -/
+def initNarrow : Bool :=
+  Gen.C02.initHandlers
+    == ["AccessDenied: pass", "ZombieProcess: pass",
+        "NoSuchProcess: if not _ignore_nsp: msg = 'process PID not found' raise NoSuchProcess(pid, msg=msg) from None; self._gone = True"]
+
+/-- how a transient OSError of the stat read reaches the caller, as extracted: the error itself when every stage of
+    the path is the narrow one transcribed in Model/C02Fault.lean; otherwise (some stage swallows more than it did)
+    the model the driver runs treats the read as answering "no such process" — the worst case for C02 -/
+def statFault : StatFault :=
+  if statReadBare && catBare && wrapNarrow && isRunningNarrow && initNarrow then .propagates else .asGone
 
 end Psutil.C02
